@@ -315,7 +315,7 @@ def run_check(modname, tier, seed, canary=None, quiet=False):
             validated += n
             mismatches.extend(bad)
     finally:
-        sym_pool.shutdown(wait=False, cancel_futures=True)
+        _kill_pool(sym_pool)
     if timed_out:
         nonexh.append(("*", "check budget of %ds exhausted with %d work items left" % (budget, len(pending) + len(inflight))))
 
@@ -340,7 +340,7 @@ def run_check(modname, tier, seed, canary=None, quiet=False):
     todo = list(uniq.values())
     cap = getattr(mod, "REPLAY_CAP", 400)
     results = list(plain_pool.map(_replay_one, todo[:cap], chunksize=4)) if todo else []
-    plain_pool.shutdown(wait=False, cancel_futures=True)
+    _kill_pool(plain_pool)
     for (task, label, inputs, extra), rr in zip(todo[:cap], results):
         if not rr.get("reproduced"):
             engine_mismatch.append((task["id"], label, rr.get("detail", "")[:500]))
@@ -463,6 +463,16 @@ def run_check(modname, tier, seed, canary=None, quiet=False):
             % (pid, tier, len(tasks), agg["paths"], agg["queries"], agg["unsat"], agg["sat"], agg["unknown"], n_obl, validated, agg["solver_s"], wall, exhaustive, code)
         )
     return code, ev, {"violations": violations, "known": sorted(known_hits), "problems": problems, "outcomes": outcomes}
+
+
+def _kill_pool(pool):
+    procs = list(getattr(pool, "_processes", {}).values())
+    pool.shutdown(wait=False, cancel_futures=True)
+    for p in procs:
+        try:
+            p.terminate()
+        except Exception:
+            pass
 
 
 def _compact(inp):
